@@ -29,13 +29,17 @@ def decode_all(task):
 
     def expect_error(fn, arg, what):
         out["n"] += 1
-        try:
-            r = fn(arg)
-            out["bad"].append((what, f"{arg!r} is outside the language but was decoded to {str(r)[:120]}"))
-        except ValueError:
-            pass
-        except Exception as e:
-            out["bad"].append((what + ":wrong-exception", f"{arg!r}: {type(e).__name__} instead of ValueError"))
+        for attempt in (1, 2):  # a rejection is not a one-off: the same string is refused again (a caller that retries, a second product)
+            try:
+                r = fn(arg)
+                out["bad"].append((what + ("" if attempt == 1 else ":second-attempt"), f"{arg!r} is outside the language but "
+                                   f"{'was' if attempt == 1 else 'on the second attempt was'} decoded to {str(r)[:120]}"))
+                return
+            except ValueError:
+                pass
+            except Exception as e:
+                out["bad"].append((what + ":wrong-exception", f"{arg!r}: {type(e).__name__} instead of ValueError"))
+                return
 
     for p in task["products"]:
         if p["valid"]:
